@@ -5,7 +5,8 @@ V = os.path.dirname(os.path.dirname(os.path.abspath(__file__)))
 
 TRUST = ("rustc nightly's type checker and MIR construction (facts are read from mir_promoted, before the coroutine "
          "transform); the documented behaviour of external crates (elsa, futures, event-listener, indexmap, petgraph, "
-         "bitvec); the rule tables in /verif/rules, each instance confirmed by reading")
+         "bitvec); the rule tables in /verif/rules, each instance confirmed by reading; the frozen censuses of the reviewed tree "
+         "(rules/known_functions.json, known_items.json, known_callers.json, effects.json, c04_panic_sites.json)")
 
 CLAIMS = {
     # id: (technique, level text, design_ref)
@@ -195,7 +196,7 @@ def main():
                 "engine": "factdb+rules" + ("+cxxfacts" if pid == "C17" else ""),
                 "level_claimed": {"category": "other", "text": text, "design_ref": ref},
                 "level_note": TRUST,
-                "technique": "static analysis: " + tech,
+                "technique": "static analysis: " + tech + "; plus per-function effect signatures (which state a branch may depend on / a function may modify) against a reviewed table (T-EFF)",
             })
         elif pid in NA:
             na.append({"property_id": pid, "reason": NA[pid]})
